@@ -161,12 +161,22 @@ def st_spec(name, D, N, *, orders=(1, 2, 3, 4), dt=None, L=None, contour=False, 
             L=L if L is not None else gens.st_L(0.5, 30.0),
             dt=dt if dt is not None else gens.log_floats(1e-3, 0.5),
             M=_f(0.5, 3.0),
+            argtype=st.sampled_from(["float", "float", "float", "float", "int"]),
         )
     )
+
+    def _intify(v):
+        # plain Python ints are legitimate coefficient / extent values (diffusivity=1, domain_extent=10)
+        if isinstance(v, bool) or not isinstance(v, float):
+            return v
+        return int(round(v)) if abs(v) >= 0.75 and abs(v) < 1e6 else v
 
     def build(t):
         kw = dict(fixed)
         kw.update(t["kw"])
+        if t["argtype"] == "int":
+            t = dict(t, L=_intify(t["L"]))
+            kw = {k: (_intify(v) if k not in ("dealiasing_fraction", "circle_radius", "_contour") else v) for k, v in kw.items()}
         c = kw.pop("_contour", None)
         if c is not None:
             kw["circle_radius"], kw["num_circle_points"] = c
